@@ -774,9 +774,30 @@ func (s *Switch) ForwardPackets(linkQuit <-chan struct{},
 
 	// Now, forward any packets for circuits that were successfully added to
 	// the switch's circuit map.
-	for _, packet := range addedPackets {
+	for i, packet := range addedPackets {
 		err := s.routeAsync(packet, fwdChan, linkQuit)
 		if err != nil {
+			// The incoming link (or the switch) is shutting down, so
+			// this packet and the remaining ones will never reach
+			// the switch. Their circuits were just committed above;
+			// if we left them behind, the replay of the forwarding
+			// package after the link comes back would be dropped as
+			// a duplicate (half-open circuit that was not loaded
+			// from disk) and the incoming HTLCs would stay pending
+			// until the whole switch is restarted. Remove the
+			// circuits again so that the replay forwards the ADDs
+			// afresh.
+			unsent := make([]CircuitKey, 0, len(addedPackets)-i)
+			for _, p := range addedPackets[i:] {
+				unsent = append(unsent, p.inKey())
+			}
+			if delErr := s.circuits.DeleteCircuits(
+				unsent...,
+			); delErr != nil {
+				log.Errorf("unable to remove circuits of "+
+					"unforwarded packets: %v", delErr)
+			}
+
 			return fmt.Errorf("failed to forward packet %w", err)
 		}
 		numSent++
